@@ -5,7 +5,9 @@ package mi
 
 import (
 	"bytes"
+	"crypto/sha256"
 	"encoding/binary"
+	"fmt"
 	"io"
 	"testing"
 
@@ -546,7 +548,20 @@ func TestArbitrary(t *testing.T) {
 			// committed = the unique payload the chosen digest commits to (known
 			// by construction; for a random digest nothing may ever be released)
 			committed, commits := s.payload, true
-			switch c.Pick("digest.kind", 4) {
+			switch c.Pick("digest.kind", 5) {
+			case 4:
+				// record size within 32 of 2^64 (size + proof length wraps to a small number)
+				// with a digest crafted to match the bytes that follow as a non-final record
+				k := c.Int("wrap.k", 1, 32)
+				x := c.BytesN("wrap.x", 32-k)
+				extra := c.Bytes("wrap.extra", 0, 40)
+				var hdr8 [8]byte
+				binary.BigEndian.PutUint64(hdr8[:], ^uint64(0)-uint64(k)+1)
+				stream = append(append(append([]byte(nil), hdr8[:]...), x...), extra...)
+				h := sha256.Sum256(append(append([]byte(nil), x...), 1))
+				top = h[:]
+				committed, commits = nil, false
+				c.Probe("record size near 2^64 with crafted digest")
 			case 0: // honest
 				top, _ = refmice.ParseHeader(s.draft, digest)
 			case 1: // digest of a suffix of the stream (proof of a later record): the stream tail authenticates
@@ -665,3 +680,96 @@ func TestExhaustiveFaults(t *testing.T) {
 
 func b64url(b []byte) string { return refmiceB64(true, b) }
 func b64std(b []byte) string { return refmiceB64(false, b) }
+
+// TestInterleavedDecoders: several decoders are alive at once (a client
+// verifying several resources); their creation and their Read calls are
+// interleaved by a drawn schedule. Each decoder must still satisfy the safety
+// property of its own stream: state must not leak from one decoder to another.
+func TestInterleavedDecoders(t *testing.T) {
+	rapid.Check(t, func(t *rapid.T) {
+		core.Run(t, "mi/interleaved-decoders", func(c *core.Ctx) {
+			n := c.Int("ndecoders", 2, 3)
+			type dec struct {
+				s       setup
+				r       io.Reader
+				rr      readResult
+				done    bool
+				faulted bool
+				created bool
+				stream  []byte
+				digest  string
+			}
+			ds := make([]*dec, n)
+			for i := range ds {
+				d := &dec{s: drawSetup(c, 64, 3)}
+				d.digest, d.stream = refmice.Encode(d.s.draft, d.s.payload, d.s.rs)
+				if c.Chance("faulty", 1, 3) {
+					d.stream, _ = applyChannelFault(c, d.s, d.stream)
+					d.faulted = true
+				}
+				d.rr.eofAtLen, d.rr.errAtLen = -1, -1
+				ds[i] = d
+			}
+			steps := 0
+			var sched []byte
+			for {
+				var live []int
+				for i, d := range ds {
+					if !d.done {
+						live = append(live, i)
+					}
+				}
+				if len(live) == 0 || steps > 4000 {
+					break
+				}
+				steps++
+				i := live[c.Pick("sched.next", len(live))]
+				d := ds[i]
+				if len(sched) < 64 {
+					sched = append(sched, byte('0'+i))
+				}
+				if !d.created {
+					d.created = true
+					var err error
+					sr := c.NewReader(fmt.Sprintf("chan%d", i), d.stream, core.ReaderPlan{ErrAt: -1, Mode: c.Pick("chan.mode", 2) * 3})
+					pi := c.Guard("mice.NewDecoder", func() { d.r, err = d.s.enc.NewDecoder(sr, d.digest, 16384) })
+					if pi != nil || err != nil {
+						if c.Oracle("C10", "C15") && pi != nil {
+							c.CheckTotal("mice.NewDecoder", len(d.stream), pi, 0)
+						}
+						d.done = true
+					}
+					continue
+				}
+				buf := make([]byte, c.PickInt("caller.buf", 1, 2, 3, 7, 16, 64))
+				var k int
+				var err error
+				pi := c.Guard("mice.decoder.Read", func() { k, err = d.r.Read(buf) })
+				if pi != nil {
+					if c.Oracle("C10", "C15") {
+						c.CheckTotal("mice.decoder.Read", len(d.stream), pi, 0)
+					}
+					d.done = true
+					continue
+				}
+				d.rr.out = append(d.rr.out, buf[:k]...)
+				if err == io.EOF {
+					d.rr.eof, d.rr.eofAtLen, d.done = true, len(d.rr.out), true
+				} else if err != nil {
+					d.done = true
+				}
+			}
+			c.Event("schedule %s", sched)
+			if c.Oracle("C15", "C14") {
+				for i, d := range ds {
+					checkSafety(c, fmt.Sprintf("interleaved-decoder"), d.rr, d.s.payload, true)
+					if !d.faulted && d.created && (!d.rr.eof || !bytes.Equal(d.rr.out, d.s.payload)) {
+						c.Violation("interleaved-roundtrip", "mice.decoder.Read", "decoder %d of %d on an honest stream delivered %d of %d bytes (eof=%v) under schedule %s", i, n, len(d.rr.out), len(d.s.payload), d.rr.eof, sched)
+					}
+				}
+			}
+			c.Outcome("nt:done")
+			c.Sig("%s", sched)
+		})
+	})
+}
